@@ -559,7 +559,7 @@ class Hexagon(Shape):
             The positions of the vertexes of the shape.
         """
         vertex_positions: np.ndarray = np.zeros(6, dtype=complex)
-        vertex_positions[0] = complex(-self._radius / 2., -self.height)
+        vertex_positions[0] = complex(self._radius / -2., -self.height)
         # noinspection PyTypeChecker
         angles = np.linspace(0, 240, 5) * np.pi / 180.
 
